@@ -364,6 +364,26 @@ func (g *ribGen) dagCase() RCase {
 		s.Op.ID = g.id()
 		c.Steps = append(c.Steps, s)
 	}
+	if g.r.Chance(1, 2) {
+		// teardown: some of the top-level entries are deleted, then every group and every next-hop is asked to go:
+		// each is refused exactly while something installed still uses it (a counter that moved in the wrong
+		// instance or by the wrong amount lets a group go that an acknowledged entry points at)
+		for _, s := range ops {
+			if s.K == "add" && (s.Op.T == "v4" || s.Op.T == "v6" || s.Op.T == "mpls") && g.r.Chance(1, 2) {
+				c.Steps = append(c.Steps, RStep{K: "del", Op: &drv.OpSpec{ID: g.id(), NI: s.Op.NI, Kind: "DELETE", T: s.Op.T, Key: s.Op.Key}})
+			}
+		}
+		for _, n := range nis {
+			for gi := uint64(1); gi <= 2; gi++ {
+				c.Steps = append(c.Steps, RStep{K: "del", Op: &drv.OpSpec{ID: g.id(), NI: n, Kind: "DELETE", T: "nhg", Key: gi}})
+			}
+		}
+		for _, n := range nis {
+			for i := uint64(1); i <= 3; i++ {
+				c.Steps = append(c.Steps, RStep{K: "del", Op: &drv.OpSpec{ID: g.id(), NI: n, Kind: "DELETE", T: "nh", Key: i}})
+			}
+		}
+	}
 	if g.r.Chance(1, 4) {
 		c.Steps = append(c.Steps, RStep{K: "flush", NIs: []int{1, 2, 3}})
 	}
@@ -446,6 +466,14 @@ func (g *ribGen) retargetCase() RCase {
 		// programmed again and then deleted (refused exactly while such an entry remains)
 		n := drv.Pick(g.r, nis...)
 		c.Steps = append(c.Steps, RStep{K: "flush", NIs: []int{n}})
+		if g.r.Chance(1, 2) {
+			// the flushed groups and next-hop are deleted (again): nothing is installed under these keys, whatever
+			// still points at them from another instance
+			for gi := uint64(1); gi <= 2; gi++ {
+				add("del", drv.OpSpec{NI: n, Kind: "DELETE", T: "nhg", Key: gi})
+			}
+			add("del", drv.OpSpec{NI: n, Kind: "DELETE", T: "nh", Key: 1})
+		}
 		add("add", drv.OpSpec{NI: n, Kind: "ADD", T: "nh", Key: 1})
 		for gi := uint64(1); gi <= 2; gi++ {
 			add("add", grp(n, gi))
